@@ -19,7 +19,9 @@ type Config struct {
 	Services   bool
 	Topics     bool
 	Entities   bool // entity declarations (keys, data, statuses, events; J5sEntity.v)
-	PFiles     bool // hand-written .proto files in local packages
+	// single-line descriptions on declarations, properties and enum options (J5sComments.v)
+	Descriptions bool
+	PFiles       bool // hand-written .proto files in local packages
 	// percentage of inline types that are named like one of their enclosing messages
 	AncestorNames int
 	MaxPackages   int
@@ -28,7 +30,7 @@ type Config struct {
 
 func DefaultConfig() Config {
 	return Config{MaxDepth: 4, MaxFields: 7, Oneofs: true, Containers: true, Refs: true, Imports: true,
-		Services: true, Topics: true, Entities: true, PFiles: true, AncestorNames: 2, MaxPackages: 3, MaxFiles: 3}
+		Services: true, Topics: true, Entities: true, Descriptions: true, PFiles: true, AncestorNames: 2, MaxPackages: 3, MaxFiles: 3}
 }
 
 type typeEntry struct {
@@ -171,8 +173,34 @@ func (g *Gen) optionName(first bool) string {
 // enum draws an enum; allowEmpty: `enum X {}` without options may come out (declared enums only:
 // an inline `field f enum { }` without anything in it is read as an enum field without schema
 // and rejected, "unhandled enum schema type <nil>" - outside the documented language).
+var descWords = []string{"the", "owner", "of", "this", "record", "Initial", "status", "x", "y", "a 2nd", "see API", "id", "set when done", "not used", "in UTC"}
+
+// description draws a single-line description (letters, digits, spaces), "" most of the time.
+func (g *Gen) description(pct int) string {
+	if !g.Cfg.Descriptions || !g.R.Chance(pct) {
+		return ""
+	}
+	n := g.R.Range(1, 4)
+	parts := make([]string, n)
+	for i := range parts {
+		parts[i] = vh.Pick(g.R, descWords)
+	}
+	g.Stats["description"]++
+	return strings.Join(parts, " ")
+}
+
 func (g *Gen) enum(name string, allowEmpty bool) *Enum {
 	e := &Enum{Name: name}
+	defer func() {
+		for _, o := range e.Opts {
+			if d := g.description(12); d != "" {
+				if e.OptDesc == nil {
+					e.OptDesc = map[string]string{}
+				}
+				e.OptDesc[o] = d
+			}
+		}
+	}()
 	if g.R.Chance(20) {
 		e.Prefix = strings.ToUpper(vh.Pick(g.R, words)) + "_"
 	}
@@ -541,6 +569,7 @@ func (g *Gen) property(sc *scope, depth int, inOneof bool) *Property {
 			}
 		}
 	}
+	p.Desc = g.description(20)
 	return p
 }
 
@@ -559,13 +588,13 @@ func (g *Gen) nestedDecl(symbols map[string]bool, path []string, depth int, allo
 			if !claimEnum(symbols, name, e) {
 				continue
 			}
-			return &Nested{Kind: "enum", Name: name, Enum: e}
+			return &Nested{Kind: "enum", Name: name, Enum: e, Desc: g.description(25)}
 		}
 		if symbols[name] {
 			continue
 		}
 		symbols[name] = true
-		n := &Nested{Kind: kind, Name: name}
+		n := &Nested{Kind: kind, Name: name, Desc: g.description(25)}
 		self := append(append([]string{}, path...), name)
 		sc := newScope(self)
 		// explicitly nested declarations first claim their names, so that inline names avoid them
